@@ -188,7 +188,25 @@ impl Mask {
         let xl = xs.join(", ");
         let mut fam: Vec<String> = Vec::new();
         let shape;
-        match rng.below(5) {
+        match rng.below(6) {
+            5 => {
+                // INNER JOIN whose ON condition is an OR of conjunctions that each carry an equi-join
+                // (some branches share one, one has its own) against the same predicate over the cross product
+                shape = "or_join";
+                let (ca2, cb2) = rng.pick(&pairs).clone();
+                let p1 = lit(rng, a, "x");
+                let p2 = lit(rng, b, "y");
+                let p3 = lit(rng, b, "y");
+                let cond = match rng.below(3) {
+                    0 => format!("(x.{ca} = y.{cb} AND {p1}) OR (x.{ca} = y.{cb} AND {p2}) OR (x.{ca2} = y.{cb2} AND {p3})"),
+                    1 => format!("(x.{ca2} = y.{cb2} AND {p3}) OR (x.{ca} = y.{cb} AND {p1}) OR (x.{ca} = y.{cb} AND {p2})"),
+                    _ => format!("(x.{ca} = y.{cb} AND {p1}) OR (x.{ca} = y.{cb} AND {p2})"),
+                };
+                let sel = format!("x.{c0}, y.{d0}, x.{ca}, y.{cb}", c0 = a.cols[0].name, d0 = b.cols[0].name);
+                fam.push(format!("SELECT {sel} FROM {an} x INNER JOIN {bn} y ON {cond}"));
+                fam.push(format!("SELECT {sel} FROM {an} x, {bn} y WHERE {cond}"));
+                fam.push(format!("SELECT {sel} FROM {an} x INNER JOIN (SELECT * FROM {bn}) AS y ON {cond}"));
+            }
             0 => {
                 shape = "semi";
                 fam.push(format!("SELECT {xl} FROM {an} x WHERE x.{ca} IN (SELECT y.{cb} FROM {bn} y WHERE {pb})"));
